@@ -44,8 +44,8 @@ NOTES = {
             'trusted: A0-A4; see evidence for shapes left to Kani'),
     'C18': ('proof', 'Verus proves the num_integer/num_traits method bodies on the real code (emitted as inherent methods because the external traits cannot be declared): Integer::{div_floor, mod_floor, div_rem, is_multiple_of, is_even, is_odd}, the binary gcd loop and lcm against a divisibility specification, Euclid/Signed/PrimInt/MulAdd and every Checked/Wrapping/Saturating/Overflowing forwarder with the contract of the inherent method it forwards to, and Roots: the generic fixpoint iteration (contract over its closure), sqrt and cbrt as floor roots without overflow at any width, nth_root (dispatch, exact zeroth-root panic, Newton branch) and the signed wrappers with exact panic sets.',
             "trusted: A0-A4; num_integer's u128::{sqrt,cbrt,nth_root} and u32::is_even (external crate) as stated stand-ins; nth_root's general branch is proved under a precondition that excludes exactly the overflow region of the recorded known finding (panic above 128 bits when (bits/n+1)(n-1) >= BITS)"),
-    'C19': ('proof', 'Verus proves ToPrimitive::to_{u,i}{8..128,size} and FromPrimitive::from_{u,i}{8..128,size} on the real method bodies (emitted as inherent methods because the external traits cannot be declared): Some exactly when the value is representable, with the same numeric value, for every digit type, generic N and usize of 32 and 64 bits at once; AsPrimitive::as_ in both directions for all integer types, char and bool equals the CastFrom contract; float conversions by bounded Kani harnesses.',
-            'trusted: A0-A4; from_f32/from_f64/to_f32/to_f64 and AsPrimitive<f32/f64> are bounded to the listed Kani configurations and never counted as proved (the float casts they forward to are proved under C14)'),
+    'C19': ('proof', 'Verus proves ToPrimitive::to_{u,i}{8..128,size} and FromPrimitive::from_{u,i}{8..128,size} on the real method bodies (emitted as inherent methods because the external traits cannot be declared): Some exactly when the value is representable, with the same numeric value, for every digit type, generic N and usize of 32 and 64 bits at once; AsPrimitive::as_ in both directions for all integer types, char, bool, f32 and f64 equals the CastFrom contract; from_f32/from_f64 (Some exactly for finite, in-range and - for unsigned targets - non-negative floats, with the float truncated toward zero), to_f32/to_f64 and the float decoders are proved over the IEEE bit pattern.',
+            'trusted: A0-A4 and the float primitives listed under C14 plus is_finite, IEEE equality over bit patterns, size_of::<fN>, uN::checked_shr; Kani harnesses (630 registered) are bounded cross-checks'),
     'C20': ('proof', 'Verus proves range membership of the real UniformInt sampler bodies (RNG replaced by an arbitrary-value oracle, rewrite R15) and that the acceptance zone satisfies the hypothesis of the (proved) uniformity lemma; Fill/Standard by bounded Kani harnesses.',
             'trusted: A0-A4, A7 (termination of rejection loops not claimed; RNG = arbitrary oracle)'),
 }
